@@ -49,10 +49,15 @@ MaxLatestHistory == 100
 
 NoEv == [name |-> "Init", who |-> "", feed |-> "", agg |-> "", lh |-> 0, provs |-> <<>>, thr |-> 0,
          cap |-> 0, timeout |-> 0, freq |-> 0, kind |-> "", x |-> 0, dt |-> 0, rank |-> 0,
-         aggs |-> EmptyF, ok |-> TRUE, panic |-> FALSE, halt |-> FALSE]
+         aggs |-> EmptyF, code |-> 0, ok |-> TRUE, panic |-> FALSE, halt |-> FALSE]
 
-FailW(s, w) == [ok |-> FALSE, panic |-> FALSE, st |-> s, why |-> w]
-Done(s) == [ok |-> TRUE, panic |-> FALSE, st |-> s, why |-> ""]
+(* code: the result code of the oracle-price module service (CallPrice), else 0 *)
+FailW(s, w) == [ok |-> FALSE, panic |-> FALSE, st |-> s, why |-> w, code |-> 0]
+Done(s) == [ok |-> TRUE, panic |-> FALSE, st |-> s, why |-> "", code |-> 0]
+
+ORACLEP == "oraclep"        \* provider address of the oracle-price module service
+PAIR == "btc-stake"         \* the feed the exchange rate btc -> stake is read from
+MaxAge == 300               \* seconds (block time) after which a value is expired
 
 NoDup(q) == \A i, j \in DOMAIN q : i # j => q[i] # q[j]
 
@@ -60,8 +65,6 @@ NoDup(q) == \A i, j \in DOMAIN q : i # j => q[i] # q[j]
 (* types/aggregate.go, on integers in units of 10^-8 *)
 ValsOf(f) == {f[p] : p \in DOMAIN f}
 
-(* Max starts from math.SmallestNonzeroFloat64 (prints as 0.00000000): answers
-   that are all negative give 0 *)
 CodeMax(f) == SetMax(ValsOf(f))   \* fix bb6c4a3 (F15): before it Max(0, ...), the loop started from the smallest positive float
 CodeMin(f) == SetMin(ValsOf(f))
 
@@ -232,6 +235,61 @@ DoRespond(s, e) ==
             s2 == IF complete THEN Callback(s1, e, c) ELSE s1
         IN Done([s2 EXCEPT !.ctx[c] = IF complete THEN [cx1 EXCEPT !.bdone = TRUE] ELSE cx1])
 
+(***************************************************************************)
+(* keeper.go ModuleServiceRequest — the "oracle-price" module service:     *)
+(* 400 feed not found, 401 no value, 402 newest value older than five      *)
+(* minutes of BLOCK time (fix 5ef61dc; before it the host clock), 200 and  *)
+(* the newest value as rate.                                               *)
+(***************************************************************************)
+PriceCode(s, pair) ==
+  IF pair \notin DOMAIN s.feeds THEN 400
+  ELSE IF Len(s.values[pair]) = 0 THEN 401
+  ELSE IF s.now - s.values[pair][1].t > MaxAge THEN 402
+  ELSE 200
+
+(* service msg_server.go CallService on a module service: a one-shot context
+   (no module name, state RUNNING then COMPLETED), one request to the module
+   provider answered in the same transaction, price 0.  The context stays in
+   the store for good; its new-batch marker is dropped by the end-blocker of
+   the block. *)
+DoCallPrice(s, e) ==
+  IF e.cap <= 0 THEN FailW(s, "fee_cap")
+  ELSE
+    LET code == PriceCode(s, e.feed)
+        cid == CtxId(s.nctx + 1)
+        \* RequestModuleService writes back the copy of the context it read before
+        \* the request was initiated and answered: batch counter and counts stay 0
+        \* (the request and response of batch 1 stay in the store, unreferenced)
+        cx == [consumer |-> e.who, provs |-> <<ORACLEP>>, state |-> "completed", cap |-> e.cap,
+               timeout |-> 1, rep |-> FALSE, freq |-> 0, thr |-> 0,
+               bdone |-> TRUE, bcount |-> 0, reqN |-> 0, respN |-> 0, bthr |-> 0,
+               newAt |-> s.h, expAt |-> 0, rank |-> e.rank, reqs |-> EmptyF]
+    IN [Done([s EXCEPT !.nctx = s.nctx + 1, !.ctx = Put(s.ctx, cid, cx)]) EXCEPT !.code = code]
+
+(* service keeper GetExchangeRate(btc, stake): usable iff the module service
+   answers 200 with a rate the oracle-price schema accepts (unsigned decimal)
+   that is not zero *)
+RateUsable(s) == PriceCode(s, PAIR) = 200 /\ s.values[PAIR][1].v > 0
+
+(* service AddServiceBinding of a service priced in btc (service "price2", no
+   feed uses it): GetMinDeposit converts the price through the exchange rate *)
+DoBindX(s, e) ==
+  IF e.cap <= 0 \/ e.x <= 0 THEN FailW(s, "invalid")
+  ELSE IF e.who \in DOMAIN s.xbind THEN FailW(s, "exists")
+  ELSE IF ~RateUsable(s) THEN FailW(s, "no_rate")
+  ELSE
+    LET base0 == (e.x * s.values[PAIR][1].v) \div 100000000
+        base == IF base0 = 0 THEN 1 ELSE base0
+    IN IF e.cap < base THEN FailW(s, "deposit")
+       ELSE IF s.bal[e.who][D] < e.cap THEN FailW(s, "funds")
+       ELSE Done([s EXCEPT !.bal = Move(s.bal, e.who, SVCDEP, Coin(e.cap)),
+                           !.xbind = Put(s.xbind, e.who, [price |-> e.x, deposit |-> e.cap])])
+
+(* bank MsgSend between tracked accounts (environment) *)
+DoSend(s, e) ==
+  IF e.x <= 0 \/ e.feed \notin DOMAIN s.bal \/ s.bal[e.who][D] < e.x THEN FailW(s, "funds")
+  ELSE Done([s EXCEPT !.bal = Move(s.bal, e.who, e.feed, Coin(e.x))])
+
 (* service MsgPause/Start/KillRequestContext sent to a feed's context: the
    service module refuses direct operations on module-owned contexts
    (CheckAuthority with checkModule) *)
@@ -302,6 +360,9 @@ Apply0(s, e) ==
     [] e.name = "EditFeed"   -> DoEditFeed(s, e)
     [] e.name = "Respond"    -> DoRespond(s, e)
     [] e.name = "SvcDirect"  -> DoSvcDirect(s, e)
+    [] e.name = "CallPrice"  -> DoCallPrice(s, e)
+    [] e.name = "BindX"      -> DoBindX(s, e)
+    [] e.name = "Send"       -> DoSend(s, e)
     [] e.name = "BeginBlock" -> DoBeginBlock(s, e)
     [] e.name = "EndBlock"   -> DoEndBlock(s, e)
     [] OTHER -> FailW(s, "unknown")
@@ -330,19 +391,23 @@ MetThreshold(s, e, c) ==
 Appending(s, e, t) ==
   {f \in DOMAIN s.feeds : Completed(s, t, s.feeds[f].ctx) /\ MetThreshold(s, e, s.feeds[f].ctx)}
 
-(* known finding F15: the maximum of answers that are all negative *)
-F15Case(s, e, t) ==
-  \E f \in Appending(s, e, t) :
-    s.feeds[f].agg = "max" /\ \A x \in ValsOf(ValidOut(s, e, s.feeds[f].ctx)) : x < 0
+Apply(s, e) == Apply0(s, e)
 
-Apply(s, e) ==
-  LET r == Apply0(s, e) IN
-  IF r.ok /\ e.name \in {"Respond", "EndBlock"} /\ F15Case(s, e, r.st)
-  THEN [r EXCEPT !.why = "max_all_negative"] ELSE r
-
-(* the only ghost bounds the model: number of successful edits *)
-GhostInit == [edits |-> 0]
-GhostStep(g, s, e, t) == [edits |-> g.edits + (IF e.name = "EditFeed" /\ e.ok THEN 1 ELSE 0)]
+(* ghosts: counters that bound the model (successful edits, module-service
+   calls / binds / sends) and the feeds currently paused for lack of funds
+   (autop; restart = this step restarted one of them) *)
+GhostInit == [edits |-> 0, calls |-> 0, autop |-> {}, restart |-> FALSE]
+GhostStep(g, s, e, t) ==
+  LET auto == IF e.name = "EndBlock"
+              THEN {f \in DOMAIN s.feeds : s.ctx[s.feeds[f].ctx].state = "running"
+                                            /\ f \in DOMAIN t.feeds /\ t.feeds[f].ctx \in DOMAIN t.ctx
+                                            /\ t.ctx[t.feeds[f].ctx].state = "paused"}
+              ELSE {}
+      started == IF e.name = "StartFeed" /\ e.ok THEN {e.feed} ELSE {}
+  IN [edits |-> g.edits + (IF e.name = "EditFeed" /\ e.ok THEN 1 ELSE 0),
+      calls |-> g.calls + (IF e.name \in {"CallPrice", "BindX", "Send"} THEN 1 ELSE 0),
+      autop |-> (g.autop \cup auto) \ started,
+      restart |-> started \cap g.autop # {}]
 
 -----------------------------------------------------------------------------
 (* Property clauses *)
@@ -397,6 +462,63 @@ C17_Authority(s, e) ==
   (e.name \in {"StartFeed", "PauseFeed", "EditFeed"} /\ e.ok) =>
     (e.feed \in DOMAIN s.feeds /\ e.who = s.feeds[e.feed].creator)
 
+-----------------------------------------------------------------------------
+(* Diagnostic clauses (beyond C17's text; reported, never a verdict) *)
+
+(* the oracle-price module service answers 200 exactly for an existing feed
+   whose newest value is at most five minutes of block time old *)
+X17_PriceService(s, e) ==
+  (e.name = "CallPrice" /\ e.ok) =>
+    /\ e.code \in {200, 400, 401, 402}
+    /\ (e.code = 200) <=> (e.feed \in DOMAIN s.feeds /\ Len(s.values[e.feed]) > 0
+                              /\ s.now - s.values[e.feed][1].t <= MaxAge)
+    /\ (e.code = 402) => (e.feed \in DOMAIN s.feeds /\ Len(s.values[e.feed]) > 0)
+
+(* a service priced in btc can only be bound while the btc-stake feed gives a
+   fresh positive rate, and the deposit covers the converted price *)
+X17_RateGate(s, e, t) ==
+  (e.name = "BindX" /\ e.ok) =>
+    /\ PAIR \in DOMAIN s.feeds /\ Len(s.values[PAIR]) > 0
+    /\ s.now - s.values[PAIR][1].t <= MaxAge /\ s.values[PAIR][1].v > 0
+    /\ e.cap * 100000000 > e.x * s.values[PAIR][1].v - 100000000
+    /\ t.bal[SVCDEP][D] = s.bal[SVCDEP][D] + e.cap /\ t.bal[e.who][D] = s.bal[e.who][D] - e.cap
+
+(* an accepted edit sets exactly the given settings of the underlying context
+   (0 / empty = unchanged) and never touches its state or running batch *)
+X17_EditApplied(s, e, t) ==
+  (e.name = "EditFeed" /\ e.ok) =>
+    LET c == s.feeds[e.feed].ctx
+        a == s.ctx[c]
+        b == t.ctx[c]
+    IN /\ b.thr = (IF e.thr = 0 THEN a.thr ELSE e.thr)
+       /\ b.provs = (IF Len(e.provs) = 0 THEN a.provs ELSE e.provs)
+       /\ b.timeout = (IF e.timeout = 0 THEN a.timeout ELSE e.timeout)
+       /\ b.freq = (IF e.freq = 0 THEN a.freq ELSE e.freq)
+       /\ b.cap = (IF e.cap = 0 THEN a.cap ELSE e.cap)
+       /\ t.feeds[e.feed].lh = (IF e.lh = 0 THEN s.feeds[e.feed].lh ELSE e.lh)
+       /\ b.state = a.state /\ b.reqs = a.reqs /\ b.bthr = a.bthr /\ b.bcount = a.bcount
+       /\ b.newAt = a.newAt /\ b.expAt = a.expAt
+       /\ t.bal = s.bal
+
+(* settings that would leave the context inconsistent are refused *)
+X17_EditRejects(s, e) ==
+  (e.name = "EditFeed" /\ e.feed \in DOMAIN s.feeds /\ s.feeds[e.feed].ctx \in DOMAIN s.ctx) =>
+    LET a == s.ctx[s.feeds[e.feed].ctx]
+        thr == IF e.thr = 0 THEN a.thr ELSE e.thr
+        n == IF Len(e.provs) = 0 THEN Len(a.provs) ELSE Len(e.provs)
+        timeout == IF e.timeout = 0 THEN a.timeout ELSE e.timeout
+        freq == IF e.freq = 0 THEN a.freq ELSE e.freq
+    IN (thr > n \/ freq < timeout \/ timeout > s.params.timeout \/ ~NoDup(e.provs)) => ~e.ok
+
+(* a paused feed (also one paused for lack of funds) is restarted by its creator
+   and, unless a batch is still open, issues its next batch in the same block *)
+X17_Restart(s, e, t) ==
+  (e.name = "StartFeed" /\ e.feed \in DOMAIN s.feeds /\ e.who = s.feeds[e.feed].creator
+     /\ s.ctx[s.feeds[e.feed].ctx].state = "paused") =>
+    LET c == s.feeds[e.feed].ctx IN
+    /\ e.ok /\ t.ctx[c].state = "running"
+    /\ (s.ctx[c].newAt = 0 /\ s.ctx[c].expAt = 0) => t.ctx[c].newAt = s.h
+
 C13_NoHalt(e) == ~e.halt
 
 Rejected_NoEffect(s, e, t) ==
@@ -405,7 +527,11 @@ Rejected_NoEffect(s, e, t) ==
 -----------------------------------------------------------------------------
 (* Model-checking universe *)
 CONSTANTS MaxH, MaxFeeds, FeedNames, Creators, Aggs, Limits, ProvLists, Thresholds, Caps,
-          Freqs, Xs, Prices, Funds, MaxTimeout, TaxNum, TaxDen, MaxEdits, DTs
+          Freqs, Xs, Prices, Funds, MaxTimeout, TaxNum, TaxDen, MaxEdits, DTs,
+          EditTFs,    \* <<timeout, frequency>> pairs offered to EditFeed
+          EditCaps,   \* fee caps offered to EditFeed
+          MaxCalls,   \* module-service calls, btc binds and sends per behaviour (0: none)
+          Sends       \* amounts of plain bank sends between users
 
 (* constants the cfg syntax cannot express (functions, negative numbers, tuples) *)
 PricesDef == ("p1" :> 10) @@ ("p2" :> 12)
@@ -413,7 +539,9 @@ PricesDef3 == ("p1" :> 10) @@ ("p2" :> 12) @@ ("p3" :> 14)
 XsDef == {-3, -1, 2}
 XsDefBig == {-3, -2, 1, 3}
 XsDef2 == {-3, 2}
+EditTFsDef == {<<1, 1>>, <<1, 2>>, <<2, 2>>, <<2, 1>>}
 ProvListsDef == {<<"p1">>, <<"p1", "p2">>}
+ProvLists1Def == {<<"p1">>}
 ProvListsDef3 == {<<"p1">>, <<"p2", "p1">>, <<"p1", "p2", "p3">>}
 
 Accts == Users \cup Provs \cup {SVCREQ, SVCDEP, SVCTAX}
@@ -424,15 +552,18 @@ Init0 ==
    ctx |-> EmptyF, nctx |-> 0,
    bind |-> [p \in DOMAIN Prices |-> [avail |-> TRUE, price |-> Prices[p], qos |-> 1]],
    earned |-> [p \in Provs |-> 0],
-   bal |-> [a \in Accts |-> Coin(IF a \in Users THEN Funds ELSE 0)],
+   \* as the harness sets it up: every provider holds 20 and has deposited 20
+   bal |-> [a \in Accts |-> Coin(IF a \in Users THEN Funds
+                                 ELSE IF a \in Provs THEN 20
+                                 ELSE IF a = SVCDEP THEN 20 * Cardinality(Provs) ELSE 0)],
    params |-> [timeout |-> MaxTimeout, taxNum |-> TaxNum, taxDen |-> TaxDen],
-   qBad |-> 0, gvBad |-> 0, fmtBad |-> 0]
+   xbind |-> EmptyF, qBad |-> 0, gvBad |-> 0, fmtBad |-> 0]
 
 Init == st = Init0 /\ ev = NoEv /\ gh = GhostInit /\ hist = <<>>
 
 Step(e) ==
   LET r == Apply(st, e)
-      e2 == [e EXCEPT !.ok = r.ok, !.panic = r.panic]
+      e2 == [e EXCEPT !.ok = r.ok, !.panic = r.panic, !.code = r.code]
   IN /\ st' = r.st
      /\ ev' = e2
      /\ gh' = GhostStep(gh, st, e2, r.st)
@@ -458,6 +589,9 @@ EditFeed ==
        \/ \E lh \in Limits : Step([NoEv EXCEPT !.name = "EditFeed", !.who = who, !.feed = f, !.lh = lh])
        \/ \E thr \in Thresholds : Step([NoEv EXCEPT !.name = "EditFeed", !.who = who, !.feed = f, !.thr = thr])
        \/ \E ps \in ProvLists : Step([NoEv EXCEPT !.name = "EditFeed", !.who = who, !.feed = f, !.provs = ps])
+       \/ \E tf \in EditTFs : Step([NoEv EXCEPT !.name = "EditFeed", !.who = who, !.feed = f,
+                                                !.timeout = tf[1], !.freq = tf[2]])
+       \/ \E cap \in EditCaps : Step([NoEv EXCEPT !.name = "EditFeed", !.who = who, !.feed = f, !.cap = cap])
 Respond ==
   /\ st.inb
   /\ \E who \in Provs, f \in DOMAIN st.feeds :
@@ -468,7 +602,21 @@ SvcDirect ==
   st.inb /\ \E who \in Users, f \in DOMAIN st.feeds, k \in {"pause", "start", "kill"} :
     Step([NoEv EXCEPT !.name = "SvcDirect", !.who = who, !.feed = f, !.kind = k])
 
+CallPrice ==
+  /\ st.inb /\ gh.calls < MaxCalls
+  /\ \E who \in Users, f \in FeedNames \cup {"nofeed"}, rk \in (1..(MaxFeeds + MaxCalls)) \ {st.ctx[c].rank : c \in DOMAIN st.ctx} :
+       Step([NoEv EXCEPT !.name = "CallPrice", !.who = who, !.feed = f, !.cap = 1, !.rank = rk])
+BindX ==
+  /\ st.inb /\ gh.calls < MaxCalls
+  /\ \E p \in Provs, x \in {1, 3}, dep \in {1, 5} :
+       Step([NoEv EXCEPT !.name = "BindX", !.who = p, !.x = x, !.cap = dep])
+Send ==
+  /\ st.inb /\ gh.calls < MaxCalls
+  /\ \E who \in Users : \E to \in Users \ {who}, a \in Sends :
+       Step([NoEv EXCEPT !.name = "Send", !.who = who, !.feed = to, !.x = a])
+
 Next == BeginBlock \/ EndBlock \/ CreateFeed \/ StartFeed \/ PauseFeed \/ EditFeed \/ Respond \/ SvcDirect
+        \/ CallPrice \/ BindX \/ Send
 Spec == Init /\ [][Next]_vars
 
 Rejects(h) == Cardinality({i \in DOMAIN h : ~h[i].ok})
@@ -481,14 +629,17 @@ GenConstraint ==
 
 -----------------------------------------------------------------------------
 Inv_C17_StateMirror == C17_StateMirror(st)
-Inv_Conserved == TotalOf(st.bal, D) = Cardinality(Users) * Funds
+Inv_Conserved == TotalOf(st.bal, D) = Cardinality(Users) * Funds + 40 * Cardinality(Provs)
 Act_C17_Append == [][C17_Append(st, ev', st')]_vars
 Act_C17_Aggregate == [][C17_Aggregate(st, ev', st')]_vars
-(* modulo known finding F15 (max of all-negative answers is 0) *)
-Act_C17_Aggregate_ModF15 == [][C17_Aggregate(st, ev', st') \/ Apply(st, ev').why = "max_all_negative"]_vars
 Act_C17_History == [][C17_History(st, ev', st')]_vars
 Act_C17_Authority == [][C17_Authority(st, ev')]_vars
 Act_Rejected_NoEffect == [][Rejected_NoEffect(st, ev', st')]_vars
+Act_X17_PriceService == [][X17_PriceService(st, ev')]_vars
+Act_X17_RateGate == [][X17_RateGate(st, ev', st')]_vars
+Act_X17_EditApplied == [][X17_EditApplied(st, ev', st')]_vars
+Act_X17_EditRejects == [][X17_EditRejects(st, ev')]_vars
+Act_X17_Restart == [][X17_Restart(st, ev', st')]_vars
 
 View == <<st, gh>>
 =============================================================================
